@@ -81,10 +81,46 @@ class Model:
     """Base class for model objects whose attributes/methods may be used."""
 
 
+class IdModel:
+    """id(): unique among the objects alive at the same time - and nothing more.  Deterministic and adversarial: an object keeps its
+    number while it lives; at the start of every top-level call the numbers of objects that have died are free again and the next
+    new object takes the smallest free one (CPython's allocator does hand the address of a freed object to the next one of its
+    size; state keyed on id() has to cope with exactly that)."""
+
+    def __init__(self):
+        self.table = {}  # real id -> (weak reference or None, number)
+
+    def new_epoch(self):
+        if not self.table:
+            return
+        import gc
+
+        gc.collect()
+        self.table = {k: v for k, v in self.table.items() if v[0] is not None and v[0]() is not None}
+
+    def __call__(self, obj):
+        import weakref
+
+        k = id(obj)
+        hit = self.table.get(k)
+        if hit is not None and (hit[0] is None or hit[0]() is obj):
+            return hit[1]
+        used = {v[1] for v in self.table.values()}
+        n = 1000
+        while n in used:
+            n += 8
+        try:
+            ref = weakref.ref(obj)
+        except TypeError:
+            ref = None
+        self.table[k] = (ref, n)
+        return n
+
+
+ID_MODEL = IdModel()
+
 _SAFE_BUILTINS = {
-    # id(): CPython's own - unique among the objects alive at the same time, so the address of a dead object of an earlier call
-    # may come back for a new one (which is exactly what state keyed on id() has to cope with)
-    "id": id,
+    "id": ID_MODEL,
     "len": len,
     "set": set,
     "list": list,
